@@ -43,9 +43,11 @@ def hexid(raw):
     return '$' + binascii.hexlify(raw).decode('ascii').upper()
 
 
-def relay_lines(rid, nick, flags, n_a, has_w, bw, has_p):
-    ip = '10.9.%d.1' % rid
-    lines = ['r %s %s %s 2024-01-01 00:00:00 %s 9001 9030' % (nick, b64id(ID[rid]), 'A' * 27, ip)]
+def relay_lines(rid, nick, flags, n_a, has_w, bw, has_p, net=0):
+    # net: 0 the usual address and ports; 1 same address, other ports (ORPort 443, DirPort 0); 2 other address, usual ports
+    ip = ('10.8.%d.7' if net == 2 else '10.9.%d.1') % rid
+    orport, dirport = ('443', '0') if net == 1 else ('9001', '9030')
+    lines = ['r %s %s %s 2024-01-01 00:00:00 %s %s %s' % (nick, b64id(ID[rid]), 'A' * 27, ip, orport, dirport)]
     v6 = ['[2001:db8::%d]:9001' % rid, '[2001:db8:1::%d]:443' % rid][:n_a]
     for a in v6:
         lines.append('a ' + a)
@@ -54,7 +56,7 @@ def relay_lines(rid, nick, flags, n_a, has_w, bw, has_p):
         lines.append('w Bandwidth=%d' % bw)
     if has_p:
         lines.append('p accept 80,443')
-    return lines, {'nick': nick, 'id': hexid(ID[rid]), 'ip': ip, 'v6': v6, 'flags': [f.lower() for f in ['Fast', 'Running', 'Valid'] + flags],
+    return lines, {'nick': nick, 'id': hexid(ID[rid]), 'ip': ip, 'orport': orport, 'dirport': dirport, 'v6': v6, 'flags': [f.lower() for f in ['Fast', 'Running', 'Valid'] + flags],
                    'bw': bw if has_w else 0}
 
 
@@ -63,9 +65,10 @@ def build_doc(r1, r2_present, r3_dup=False):
     lines = []
     table = {}
     if r1 is not None:
-        nick_dup, fb, n_a, has_w, bwi, has_p = r1
+        nick_dup, fb, n_a, has_w, bwi, has_p = r1[:6]
+        net = r1[6] if len(r1) > 6 else 0
         flags = [FLAGNAMES[i] for i in range(3) if fb & (1 << i)]
-        ls, t = relay_lines(1, 'dup' if nick_dup else 'uniq', flags, n_a, has_w, BWS[bwi], has_p)
+        ls, t = relay_lines(1, 'dup' if nick_dup else 'uniq', flags, n_a, has_w, BWS[bwi], has_p, net)
         lines += ls
         table[1] = t
     if r2_present:
@@ -102,8 +105,9 @@ def check_view(state, table, objs, step):
             return R('lookup-by-identity-inconsistent', 'doc %s relay %d', step, rid)
         if rid in objs and objs[rid] is not r:
             return R('relay-object-identity-not-kept', 'doc %s relay %d', step, rid)
-        if r.name != t['nick'] or r.id_hex != t['id'] or r.ip != t['ip'] or str(r.or_port) != '9001' or str(r.dir_port) != '9030':
-            return R('relay-attributes-differ', 'doc %s relay %d: %s %s %s', step, rid, r.name, r.id_hex, r.ip)
+        if r.name != t['nick'] or r.id_hex != t['id'] or r.ip != t['ip'] or str(r.or_port) != t['orport'] or str(r.dir_port) != t['dirport']:
+            return R('relay-attributes-differ', 'doc %s relay %d: view %s %s %s:%s dir %s, document %s %s:%s dir %s', step, rid, r.name, r.id_hex, r.ip,
+                     r.or_port, r.dir_port, t['nick'], t['ip'], t['orport'], t['dirport'])
         if list(r.ip_v6) != t['v6']:
             return R('ipv6-addresses-differ', 'doc %s relay %d: view %r document %r', step, rid, list(r.ip_v6), t['v6'])
         if sorted(r.flags) != sorted(t['flags']):
@@ -175,13 +179,14 @@ def _docs(cfgs, first_how):
     return ''
 
 
-def _r1(present, nick_dup, fb, n_a, has_w, bwi, has_p):
+def _r1(present, nick_dup, fb, n_a, has_w, bwi, has_p, net=0):
     if not present:
-        assume(not nick_dup and fb == 0 and n_a == 0 and not has_w and bwi == 0 and not has_p)
+        assume(not nick_dup and fb == 0 and n_a == 0 and not has_w and bwi == 0 and not has_p and net == 0)
         return None
     if not has_w:
         assume(bwi == 0)
-    return (True if nick_dup else False, api.pick(fb, 0, 7), api.pick(n_a, 0, 2), True if has_w else False, api.pick(bwi, 0, 3), True if has_p else False)
+    return (True if nick_dup else False, api.pick(fb, 0, 7), api.pick(n_a, 0, 2), True if has_w else False, api.pick(bwi, 0, 3), True if has_p else False,
+            api.pick(net, 0, 2))
 
 
 # rich first documents (relay 1 config, relay 2 present)
@@ -197,9 +202,12 @@ FIRST = [
 
 
 @cond(quick=dict(parts=[{'first': i, 'how': h} for i in range(len(FIRST)) for h in (0, 1)], budget=150))
-def c16_two_documents(first: int, how: int, present: bool, nick_dup: bool, fb: int, n_a: int, has_w: bool, bwi: int, has_p: bool, r2: bool, r3dup: bool) -> str:
-    """document 1 = one of the fixed rich tables (delivered by path `how`), document 2 symbolic (up to three relays may share a nickname)"""
-    cfg2 = (_r1(True if present else False, nick_dup, fb, n_a, has_w, bwi, has_p), True if r2 else False, True if r3dup else False)
+def c16_two_documents(first: int, how: int, present: bool, nick_dup: bool, fb: int, n_a: int, has_w: bool, bwi: int, has_p: bool, r2: bool, r3dup: bool, net: int) -> str:
+    """document 1 = one of the fixed rich tables (delivered by path `how`), document 2 symbolic (up to three relays may share a nickname;
+    relay 1 may come back with other ports on the same address, or on another address)"""
+    if nick_dup or r3dup or not r2:
+        assume(net == 0)      # (bounds the product: the address / port change is tried with unique nicknames)
+    cfg2 = (_r1(True if present else False, nick_dup, fb, n_a, has_w, bwi, has_p, net), True if r2 else False, True if r3dup else False)
     with api.no_tracing():
         return _docs([FIRST[first], cfg2], how)
 
